@@ -344,7 +344,7 @@ func c35MutateProto(r *hx.Rng, enc []byte) ([]byte, string) {
 
 // famC35 drives the ICS-20 ABI and protobuf codecs, the GMP ABI codec and the attestation ABI codec.
 func famC35(r *hx.Rng, o *hx.Out) {
-	n := hx.N(140, 5000)
+	n := hx.N(140, 1800)
 
 	// ---- ICS-20, Solidity ABI: encode, decode back, decode mutations and random bytes
 	for i := 0; i < n; i++ {
